@@ -183,7 +183,14 @@ func (j *jmessage) toJSON() ([]byte, error) {
 	case j.E != nil:
 		e, err := json.Marshal(j.E)
 		if err != nil {
-			return nil, err
+			// The error cannot be encoded as given (its Data are not valid
+			// JSON). The peer is still owed a reply: report the code and
+			// message without the unusable data, rather than dropping the
+			// whole message.
+			e, err = json.Marshal(&Error{Code: j.E.Code, Message: j.E.Message})
+			if err != nil {
+				return nil, err
+			}
 		}
 		sb.WriteString(`,"error":`)
 		sb.Write(e)
